@@ -2688,6 +2688,16 @@ func (s *ImmuStore) txOffsetAndSize(txID uint64) (int64, int, error) {
 	txOffset := int64(binary.BigEndian.Uint64(cb))
 	txSize := int(binary.BigEndian.Uint32(cb[offsetSize:]))
 
+	txLogSize, err := s.txLog.Size()
+	if err != nil {
+		return 0, 0, err
+	}
+
+	// offset and size are read from the commit log: a committed tx can not go beyond the tx log
+	if txOffset < 0 || txOffset > txLogSize || int64(txSize) > txLogSize-txOffset {
+		return 0, 0, fmt.Errorf("%w: tx %d lies outside the transaction log", ErrCorruptedCLog, txID)
+	}
+
 	return txOffset, txSize, nil
 }
 
